@@ -46,7 +46,7 @@ def make_variant(root, variant):
             raise OverlayError("mount point %s no longer exists in the repository" % src)
         modname = modpath.split("::")[-1]
         with open(target, "a") as fh:
-            fh.write('\n#[cfg(kani)] #[path = "%s/mod.rs"] mod %s;\n' % (mdir, modname))
+            fh.write('\n#[cfg(kani)] #[path = "%s/mod.rs"] pub(crate) mod %s;\n' % (mdir, modname))
     if "dl128" in variant:
         _rewrite(os.path.join(repo, "statime/src/datastructures/messages/mod.rs"),
                  r"^pub const MAX_DATA_LEN: usize = 1024;", "pub const MAX_DATA_LEN: usize = 128;",
